@@ -4,10 +4,11 @@ import sys
 from vlib import c01lib, common
 
 GO = dict(module="core", pkg=c01lib.PKG, pkgname=c01lib.PKGNAME,
-          files=dict(c01lib.ENV_FILES, **{"zz_verif_c02_test.go": "c02/c02_test.go", "zz_verif_c02gate_test.go": "c02/c02gate_test.go"}),
+          files=dict(c01lib.ENV_FILES, **{"zz_verif_c02_test.go": "c02/c02_test.go", "zz_verif_c02gate_test.go": "c02/c02gate_test.go",
+                                          "zz_verif_c02abort_test.go": "c02/c02abort_test.go"}),
           run="TestVerifC02")
 PARAMS_NAME = c01lib.PARAMS_NAME
-HEADER = ("From Hy Require Import gen.ParamsC01 model.C01_ServerAuth corr.C01_Corr corr.C02_Corr.\n"
+HEADER = ("From Hy Require Import gen.ParamsC01 model.C01_ServerAuth corr.C01_Corr model.C02_Abort corr.C02_Corr.\n"
           "Local Open Scope N_scope.\n")
 CORR_NAME = "C02_Corr"
 PER_SHARD = 3
@@ -24,9 +25,21 @@ RULE = ("seeded generator of request sequences (25-30 requests per connection) o
         "(junk, empty and good-looking credentials), requests that are not auth requests, raw 0x401 / other streams and datagrams arrive on "
         "the same connection; then the harness releases the authenticator and goes on; verdict on the boundary log: no response other "
         "than the masquerade's, no stream / datagram reply and no outbound call before an Authenticate call on that connection has "
-        "returned an accepting verdict. Non-trivial = a request that is not an accepted auth "
+        "returned an accepting verdict. Abort histories (12 per quick run): one connection on which user callbacks of ServeHTTP end "
+        "abnormally at some requests - the masquerade handler panics with http.ErrAbortHandler before / after flushing part of the "
+        "response, panics with another value (nil-map write, error after a complete buffered response), takes the HTTP/3 stream over "
+        "(http3.HTTPStreamer) and closes / resets it; Authenticator.Authenticate panics; TrafficLogger.LogOnlineState / "
+        "EventLogger.Connect panic after an accepting verdict - at rejected auth requests and at requests that are not auth requests, "
+        "each followed by further rejected auth requests, other requests, more faults and (45%) an accepted auth request and traffic "
+        "after it, on the same connection (same h3sHandler); every request runs under a real-time bound (8 s): NO response is a "
+        "violation (confirmed by a liveness request on the same connection), a request whose callbacks return gets exactly the "
+        "handler's response, an aborted one shows nothing beyond what the handler alone had flushed. Non-trivial = a request that is not an accepted auth "
         "request and whose response was compared with the oracle; distinct = distinct (config, request) pairs.")
 ASSUMPTIONS = [
+    "a panic of a handler / authenticator / logger callback is recovered by the HTTP/3 server, which resets the request's stream and goes on "
+    "serving the connection (quic-go http3 server_conn.go; exercised by every abort history, not modelled)",
+    "an HTTP/3 request on a loopback connection that has no final outcome after 8 s while a later request on the same connection is "
+    "answered counts as never answered",
     "net/http and quic-go/http3 turn :method / :authority / :path into r.Method / r.Host / r.URL.Path as url.ParseRequestURI does (the harness "
     "computes the path the same way; exercised by the near-miss corpus, not modelled)",
     "Date and Content-Length are transport-level headers added by http3 to every response and are excluded from the comparison; a HEAD response has no body",
@@ -119,6 +132,90 @@ def gate_case(rng, masq, good_first, idx):
     return {"k": "gate", "cfg": cfg, "reqs": pre, "first": first, "win": win, "post": post, "probe": True}
 
 
+# ---- abort histories: a user callback of ServeHTTP (masquerade handler, authenticator, logger) ends abnormally at some
+# requests of a multi-request history on one connection (harness/go/c02/c02abort_test.go)
+MASQ_FAULTS = ["abort0", "aborth", "panicv", "panich", "panicw", "hijack", "hijackabort"]
+AUTH_TARGETS = ["/auth", "/auth", "/auth?x=1", "/%61uth"]
+# (where the fault strikes, which fault): rejected auth request / request that is not an auth request / authenticator
+DIRECTED = [("rejf", f) for f in MASQ_FAULTS] + [("nonf", f) for f in MASQ_FAULTS] + [("apanic", "apanic"), ("apanic", "apanicv")]
+
+
+def with_fault(t, f):
+    return t + ("&" if "?" in t else "?") + "vf=" + f
+
+
+def xreq(rng, n, kind, f=None):
+    """one request of an abort history; n makes credentials distinct"""
+    a = {"m": "POST", "h": "hysteria", "t": rng.choice(AUTH_TARGETS), "auth": "", "hasa": True, "ccrx": rng.choice(CCRX_OK),
+         "hasrx": rng.random() < 0.7, "pad": rng.random() < 0.3, "body": ""}
+    if kind in ("rej", "rejf"):
+        a["auth"] = rng.choice(["bad-c0-%d" % n, "junk-c0-%d" % n, "x good-c0-%d" % n, ""])
+        if a["auth"] == "" and rng.random() < 0.5:
+            a["hasa"] = False
+        if kind == "rejf":
+            a["t"] = with_fault(a["t"], f)
+    elif kind == "apanic":
+        a["auth"] = rng.choice(["bad-%s-c0-%d", "good-%s-c0-%d"]) % (f, n)      # the verdict never comes
+    elif kind == "acc":
+        a["auth"] = "good-c0-%d" % n
+    elif kind == "lpanic":
+        a["auth"] = "good-%s-c0-%d" % (f, n)
+    else:
+        a = non_auth_req(rng, n)
+        if kind == "nonf":
+            if a["m"] == "HEAD":
+                a["m"] = "GET"
+            a["t"] = with_fault(a["t"], f)
+    if not a["hasrx"]:
+        a["ccrx"] = ""
+    return a
+
+
+def abort_case(rng, masq, directed, ending):
+    cfg = {"udp": rng.random() < 0.8, "masq": masq, "ignbw": rng.random() < 0.3, "maxtx": rng.choice([0, 65536]),
+           "maxrx": rng.choice([0, 65536, 250000])}
+    reqs = []
+
+    def add(kind, f=None):
+        reqs.append(xreq(rng, len(reqs), kind, f))
+    for _ in range(rng.randint(0, 2)):
+        add(rng.choice(["rej", "non"]))
+    faults = [directed] + [rng.choice(DIRECTED) for _ in range(rng.randint(1, 2))]
+    for kind, f in faults:
+        add(kind, f)
+        follow = ["rej", "non", rng.choice(["rej", "non", "rej"])]
+        rng.shuffle(follow)
+        for k in follow:
+            add(k)
+    if ending is not None:
+        # the connection gets accepted in the end (possibly with a logger that panics) and goes on
+        if ending == "acc":
+            add("acc")
+        else:
+            add("lpanic", ending)
+        tail = ["rej", "non", "nonf", rng.choice(["non", "rej", "nonf"])]
+        rng.shuffle(tail)
+        for k in tail:
+            add(k, rng.choice(MASQ_FAULTS))
+    return {"k": "abort", "cfg": cfg, "reqs": reqs, "probe": True}
+
+
+def gen_abort(rng, tier):
+    """per block of 12 histories: every masquerade fault at a REJECTED AUTH request (the exit of the auth branch that runs user
+    code under authMutex), both authenticator panics, three faults at requests that are not auth requests; four of the twelve
+    connections are accepted in the end, two of them with a logger that panics"""
+    out = []
+    for blk in range(1 if tier == "quick" else 16):
+        nonf = [("nonf", f) for f in MASQ_FAULTS]
+        rng.shuffle(nonf)
+        directed = [("rejf", f) for f in MASQ_FAULTS] + [("apanic", "apanic"), ("apanic", "apanicv")] + nonf[:3]
+        rng.shuffle(directed)
+        endings = ["lpanicx", "lpanicy", "acc", "acc"] + [None] * 8
+        rng.shuffle(endings)
+        out += [abort_case(rng, (i + blk) % 3, directed[i], endings[i]) for i in range(12)]
+    return out
+
+
 def gen(rng, tier):
     scale = 1 if tier == "quick" else 16
     cases = []
@@ -136,12 +233,120 @@ def gen(rng, tier):
                 reqs[rng.randint(8, 16)] = accepted_auth(rng, 99)
             cases.append({"k": "conn", "cfg": cfg, "reqs": reqs, "probe": True})
             i += 1
+    # (appended last: the cases above are the same as before for a given seed)
+    cases += gen_abort(rng, tier)
     return cases
+
+
+def mres_term(out, have, st, hdr, body):
+    """a handler / client outcome as a Coq term of type mres"""
+    if out == "resp":
+        return "(MResp %s)" % c01lib.resp_term(st, hdr, body)
+    if have:
+        return "(MAbort (Some %s))" % c01lib.resp_term(st, hdr, body)
+    return "(MAbort None)"
+
+
+def padn_of(hdr):
+    for k, v in hdr or []:
+        if k == "Hysteria-Padding" and v.startswith("#"):
+            return int(v[1:])
+    return 0
+
+
+def wrap_base(e):
+    if e.startswith("EAct "):
+        return "XA (XBase %s)" % e[5:]
+    assert e.startswith("EObs "), e
+    return "XE (XO %s)" % e[5:]
+
+
+def abort_log_to_events(log):
+    """boundary log of an abort history (sequential: one request in flight) -> (events : list xev, table : list mres)"""
+    xresp = {x.get("rid", 0): x for x in log if x["k"] == "xresp"}
+    table, ev = [], []
+    cur = None
+    for i, x in enumerate(log):
+        k = x["k"]
+        c = c01lib.conn(x.get("c", -1))
+        if k == "req":
+            tag = len(table)
+            rp = xresp.get(x.get("rid", 0))
+            if rp is not None:
+                table.append(mres_term("resp" if rp.get("err") == "resp" else "abort", rp.get("err") == "abort-sent",
+                                       rp.get("ost", 0), rp.get("ohdr"), rp.get("obody")))
+            else:
+                table.append("(MResp resp0)")
+            padn = padn_of(rp.get("hdr")) if rp is not None else 0
+            rt = c01lib.req_term(x, tag)
+            cur = (x, tag, rt, padn)
+            ev.append("XA (XBase (HttpReq %d %s (pad_of %d)))" % (c, rt, padn))
+        elif k == "authcall":
+            ev.append("XE (XO (ObsAuthCall %d %s %s))" % (c, c01lib.cb(x.get("auth", "")), x.get("rx", "0")))
+        elif k == "authret":
+            # the verdict, and whether a logger callback panics afterwards (inside the same ServeHTTP)
+            site = None
+            for y in log[i + 1:]:
+                if y["k"] in ("req", "xresp"):
+                    break
+                if y["k"] == "fault" and y.get("res") in ("online", "connect"):
+                    site = y.get("res")
+            padn = cur[3] if cur else 0
+            if site is not None and x.get("ok"):
+                ev.append("XA (XLogPanic %d %s (pad_of %d) %s)" % (c, c01lib.cb(x.get("id", "")), padn, "true" if site == "connect" else "false"))
+            else:
+                ev.append("XA (XBase (AuthVerdict %d %s %s (pad_of %d)))" % (c, "true" if x.get("ok") else "false", c01lib.cb(x.get("id", "")), padn))
+        elif k == "fault":
+            if x.get("res") == "auth":
+                ev.append("XA (XAuthPanic %d)" % c)
+            # masq:* faults are the handler's outcome (table); logger faults are part of XLogPanic
+        elif k == "masq":
+            q, tag = (cur[0], cur[1]) if cur else ({}, 0)
+            e2 = {"m": x.get("m", ""), "h": x.get("h", ""), "p": x.get("p", ""), "auth": q.get("auth", ""), "ccrx": q.get("ccrx", "")}
+            ev.append("XE (XO (ObsMasq %d %s))" % (c, c01lib.req_term(e2, tag)))
+        elif k == "xresp":
+            rt = cur[2] if cur else c01lib.req_term({}, 0)
+            if x.get("res") == "resp":
+                ev.append("XE (XO (ObsResp %d %s %s))" % (c, rt, c01lib.resp_term(x.get("status", 0), x.get("hdr"), x.get("body"))))
+            elif x.get("res") == "abort":
+                sent = "(Some %s)" % c01lib.resp_term(x.get("status", 0), x.get("hdr"), x.get("body")) if x.get("n") else "None"
+                ev.append("XE (XAbort %d %s %s)" % (c, rt, sent))
+            # noresp: nothing was observed - the model's response has no counterpart in the log
+        else:
+            e1, _ = c01lib.log_to_events([x])
+            ev += [wrap_base(e) for e in e1]
+    return ev, table
+
+
+FAULT_CODE = {"": 0, "auth": 2, "online": 3, "connect": 3}
+
+
+def abort_to_coq(c, o):
+    ev, table = abort_log_to_events(o["log"])
+    rs = []
+    for r in o.get("rs") or []:
+        if r.get("skip"):
+            continue
+        e = {"m": r["m"], "h": r["h"], "p": r["p"], "auth": r.get("auth", ""), "ccrx": r.get("ccrx", "")}
+        have = r.get("st", 0) > 0
+        out = r.get("out")
+        if out == "noresp":
+            observed = "(MAbort None)"          # (never equal to what the model expects of an unfaulted request; the Go verdict names it)
+        else:
+            observed = mres_term(out, have, r.get("st", 0), r.get("hdr"), r.get("body"))
+        oracle = mres_term(r.get("oout", "resp"), r.get("osent", False), r.get("ost", 0), r.get("ohdr"), r.get("obody"))
+        f = r.get("fault", "")
+        rs.append("mkXRq %s %s %s %s %s %d %d %s %s" % (
+            c01lib.req_term(e, 0), "true" if r["was"] else "false", "true" if r["called"] else "false", r.get("crx") or "0",
+            "true" if r["acc"] else "false", padn_of(r.get("hdr")), FAULT_CODE.get(f, 1), observed, oracle))
+    return "CAbort %s\n [%s]\n [%s]\n [%s]" % (c01lib.cfg_term(c["cfg"]), ";\n  ".join(table), ";\n  ".join(ev), ";\n  ".join(rs))
 
 
 def to_coq(c, o):
     if not o.get("log"):
         return None
+    if c["k"] == "abort":
+        return abort_to_coq(c, o)
     cfg = c["cfg"]
     gate = c["k"] == "gate"
     ev, table = c01lib.log_to_events(o["log"], conc=gate)
@@ -173,6 +378,8 @@ def req_class(r):
 
 
 def klass(c, o):
+    if c["k"] == "abort":
+        return "abort/masq=%d/%s" % (c["cfg"]["masq"], "accepted-in-the-end" if o.get("authed") else "never-accepted")
     if c["k"] == "gate":
         return "gate(held auth %s)/masq=%d" % ("accepted" if c["first"]["auth"].startswith("good") else "rejected", c["cfg"]["masq"])
     return "masq=%d/%s" % (c["cfg"]["masq"], "accepted-midway" if o.get("authed") else "never-accepted")
@@ -180,6 +387,18 @@ def klass(c, o):
 
 def features(c, o):
     f = set(req_class(r) + ("/after-auth" if r["was"] else "") for r in o.get("rs") or [])
+    if c["k"] == "abort":
+        faulted = False
+        for r in o.get("rs") or []:
+            if r.get("skip"):
+                continue
+            if r.get("fault"):
+                f.add("callback-fault:" + r["fault"])
+                faulted = True
+            elif faulted and r.get("out") == "resp":
+                f.add("after-a-callback-fault:" + req_class(r))
+            if r.get("out") == "noresp":
+                f.add("NO-RESPONSE:" + req_class(r))
     if c["k"] == "gate":
         held = False
         for x in o.get("log") or []:
@@ -256,6 +475,11 @@ LEVEL_TEXT = ("Machine-checked Coq theorems over the model of ServeHTTP shared w
               "body); in every run a response that differs from the handler's is the 233 response to an auth request preceded by an "
               "accepting verdict on the same connection; is_auth_req holds for exactly one (method, host, path) triple; on an "
               "unauthenticated connection a proxy stream / datagram makes nothing observable and no dialling / relaying step is enabled. "
+              "Extended LTS (model/C02_Abort.v) in which the masquerade handler may abort (outcome MResp / MAbort sent) and the "
+              "authenticator / loggers may panic: authMutex is released on every exit of the auth branch, no request on a live "
+              "connection waits for ever (every end of a pending Authenticate call is enabled and frees the mutex), responses and "
+              "aborts in every run are the handler's own unless an accepting verdict precedes, and the extension coincides with the "
+              "shared model when every callback returns. "
               "Tied to /repo on every run by regenerated constants and by ~300 real HTTP/3 requests per run compared with the handler "
               "mounted on an httptest recorder and replayed through the model in Coq (vm_compute).")
 LEVEL_NOTE = ("Trusted: Coq kernel + vm_compute; hand-written model (tie = sampled end-to-end requests + regenerated Params); python/Go glue. "
